@@ -938,7 +938,48 @@ func (r *Runner) eccSchnorrOddR(k, m []byte) []byte {
 	}
 }
 
+// a signature that satisfies the BIP340 equation when the challenge is computed over `enc` instead of the
+// 32-byte key (enc: another encoding of the key); the nonce point has even y
+func (r *Runner) eccSchnorrOverEncoding(k, m, enc []byte) []byte {
+	d := new(big.Int).SetBytes(k)
+	c := ecc.GetPublicKeyCompressed(k)
+	if c[0] == 3 {
+		d.Sub(eccN, d)
+	}
+	for {
+		kn := r.eccScalar(0)
+		rc := ecc.GetPublicKeyCompressed(kn)
+		if rc[0] != 2 {
+			continue
+		}
+		e := new(big.Int).SetBytes(eccTagged("BIP0340/challenge", rc[1:], enc, m))
+		e.Mod(e, eccN)
+		sv := new(big.Int).Mul(e, d)
+		sv.Add(sv, new(big.Int).SetBytes(kn)).Mod(sv, eccN)
+		return append(append([]byte{}, rc[1:]...), eccB32(sv)...)
+	}
+}
+
+// r = 0 and s = e·d: s·G − e·P is the point at infinity
+func eccSchnorrInfiniteR(k, m []byte) []byte {
+	d := new(big.Int).SetBytes(k)
+	c := ecc.GetPublicKeyCompressed(k)
+	if c[0] == 3 {
+		d.Sub(eccN, d)
+	}
+	zero := make([]byte, 32)
+	e := new(big.Int).SetBytes(eccTagged("BIP0340/challenge", zero, c[1:], m))
+	e.Mod(e, eccN)
+	sv := new(big.Int).Mul(e, d)
+	sv.Mod(sv, eccN)
+	return append(zero, eccB32(sv)...)
+}
+
 func runC05(r *Runner) string {
+	// the other exported functions of the package once, before any verification (package-level values they
+	// share with the verifiers must come out unchanged)
+	r.Do("priv.sum", []string{hx(r.eccScalar(1)) + "," + hx(r.eccScalar(2))}, "warm-up: SumPrivateKeys before verifying", true, "")
+
 	zero32 := make([]byte, 32)
 	degenerate := [][]byte{
 		append([]byte{2}, zero32...), append([]byte{3}, zero32...),
@@ -1087,6 +1128,12 @@ func runC05(r *Runner) string {
 		r.eccSchnorrVerify(ecc.GetPublicKeySchnorr(r.eccScalar(i+1)), m, sig, "schnorr-other-key", false)
 		// a signature made with the private key but with an odd-y nonce point
 		r.eccSchnorrVerify(pub, m, r.eccSchnorrOddR(k, m), "schnorr-odd-R", false)
+		// the nonce point at infinity; signatures whose challenge is computed over the 33- / 65-byte encoding,
+		// presented with that encoding as the key
+		r.eccSchnorrVerify(pub, m, eccSchnorrInfiniteR(k, m), "schnorr-infinite-R", false)
+		for _, enc := range [][]byte{ecc.GetPublicKeyCompressed(k), ecc.GetPublicKeyUncompressed(k)} {
+			r.eccSchnorrVerify(enc, m, r.eccSchnorrOverEncoding(k, m, enc), "schnorr-challenge-over-long-key", false)
+		}
 	}
 
 	return "valid triples: keys over all scalar classes and the edge scalars {1,2,3,n-1,n-2,n-3,(n-1)/2,(n+1)/2}, digests uniform / all-zero / all-ones / >= n, signatures made by the library; " +
